@@ -123,6 +123,7 @@ class Interp:
         self._fnparams_cache = {}
         self._subst_cache = {}
         self.step_bound = 400000
+        self.query_timeout_ms = 60000
         self.solver_time = 0.0
         self.hooks = {}              # harness monitors: name -> callable
         self.start_path([])
@@ -152,6 +153,7 @@ class Interp:
     # ------------------------------------------------------------------ path state
     def start_path(self, prefix):
         self.solver = z3.Solver()
+        self.solver.set('timeout', self.query_timeout_ms)
         self.prefix = prefix
         self.decisions = []
         self.pending = []
@@ -173,6 +175,14 @@ class Interp:
         self.symvars[name] = v
         return v
 
+    def fresh_math(self, name, w=64, lo=0, hi=None):
+        """integer-mode input: an unbounded z3 Int constrained to [lo, hi] (default: the unsigned machine range)"""
+        if name not in self.symvars:
+            self.symvars[name] = z3.Int(name)
+        v = self.symvars[name]
+        self.solver.add(v >= lo, v <= ((1 << w) - 1 if hi is None else hi))
+        return IntV(w, v, False)
+
     def fresh_int(self, name, w, signed=False):
         return IntV(w, self.fresh(name, w), signed)
 
@@ -186,6 +196,16 @@ class Interp:
     def check(self):
         t = time.time()
         r = self.solver.check()
+        if r == z3.unknown:
+            # per-query time cap hit (non-linear integer queries can wander): retry on a fresh solver with other seeds
+            for seed in (7, 23):
+                s2 = z3.Solver()
+                s2.set('timeout', self.query_timeout_ms * 2)
+                s2.set('random_seed', seed)
+                s2.add(self.solver.assertions())
+                r = s2.check()
+                if r != z3.unknown:
+                    break
         self.solver_time += time.time() - t
         self.stats['queries'] += 1
         if r == z3.unknown:
@@ -424,7 +444,8 @@ class Interp:
         elif idx.conc():
             i = idx.v
         else:
-            self.oblige(BoolV(z3.ULT(idx.v, z3.BitVecVal(length, idx.w))), 'index-oob',
+            inb = z3.And(idx.v >= 0, idx.v < length) if z3.is_int(idx.v) else z3.ULT(idx.v, z3.BitVecVal(length, idx.w))
+            self.oblige(BoolV(inb), 'index-oob',
                         '%s out of bounds (len %d)' % (what, length))
             return self.concretize(idx, what)
         if not (0 <= i < length):
@@ -634,6 +655,8 @@ class Interp:
                 return IntV(w, self.discriminant(a).v, sg)
             if a.conc():
                 return IntV(w, a.sval(), sg)
+            if z3.is_int(a.v):
+                return IntV(w, a.v, sg)      # integer mode: range obligations are the harness's
             if w > a.w:
                 return IntV(w, z3.SignExt(w - a.w, a.v) if a.s else z3.ZeroExt(w - a.w, a.v), sg)
             if w < a.w:
@@ -680,6 +703,8 @@ class Interp:
                 return BoolV(a.variant != b.variant)
         if not isinstance(a, IntV) or not isinstance(b, IntV):
             raise Unsupported('binop %s on %r, %r' % (op, a, b))
+        if (not a.conc() and z3.is_int(a.v)) or (not b.conc() and z3.is_int(b.v)):
+            return self.binop_math(op, a, b)
         w = a.w
         sg = a.s
         lo, hi = (-(1 << (w - 1)), (1 << (w - 1)) - 1) if sg else (0, (1 << w) - 1)
@@ -765,6 +790,37 @@ class Interp:
         if op in cmp:
             return self._boolv(cmp[op]())
         raise Unsupported('binop ' + op)
+
+    def binop_math(self, op, a, b):
+        """integer mode: operands are unbounded z3 Ints constrained to the machine range by the harness; wrap-around is
+        an explicit obligation (the *WithOverflow flag), so a proved run covers the machine semantics as well"""
+        w, sg = a.w, a.s
+        lo, hi = (-(1 << (w - 1)), (1 << (w - 1)) - 1) if sg else (0, (1 << w) - 1)
+
+        def zi(x):
+            if x.conc():
+                return z3.IntVal(x.sval())
+            return x.v if z3.is_int(x.v) else z3.BV2Int(x.v, x.s)
+        az, bz = zi(a), zi(b)
+        if op in ('Add', 'AddUnchecked', 'Sub', 'SubUnchecked', 'Mul', 'MulUnchecked'):
+            r = az + bz if op[0] == 'A' else (az - bz if op[0] == 'S' else az * bz)
+            return IntV(w, r, sg)
+        if op in ('AddWithOverflow', 'SubWithOverflow', 'MulWithOverflow'):
+            r = az + bz if op[0] == 'A' else (az - bz if op[0] == 'S' else az * bz)
+            return Agg('tuple', [IntV(w, r, sg), self._boolv(z3.Or(r < lo, r > hi))])
+        if op in ('Div', 'Rem'):
+            self.oblige(self._boolv(bz != 0), 'div-zero', 'division by zero')
+            # non-negative operands (asserted): a = q*b + r, 0 <= r < b with a fresh quotient and remainder
+            self.oblige(self._boolv(z3.And(az >= 0, bz > 0)), 'int-mode-sign', 'integer-mode division needs non-negative operands')
+            q = z3.Int('q%d' % self.fresh_n)
+            r = z3.Int('r%d' % self.fresh_n)
+            self.fresh_n += 1
+            self.solver.add(az == q * bz + r, r >= 0, r < bz, q >= 0)
+            return IntV(w, q if op == 'Div' else r, sg)
+        cmp = {'Eq': az == bz, 'Ne': az != bz, 'Lt': az < bz, 'Le': az <= bz, 'Gt': az > bz, 'Ge': az >= bz}
+        if op in cmp:
+            return self._boolv(cmp[op])
+        raise Unsupported('integer-mode binop ' + op)
 
     @staticmethod
     def _boolv(e):
@@ -1182,9 +1238,10 @@ class Interp:
                     if (k & ((1 << v.w) - 1)) == val:
                         return tgt
                 return other
-            alts = [(('arm', k, tgt), v.v == z3.BitVecVal(k, v.w)) for k, tgt in arms]
+            mk = (lambda k: z3.IntVal(k)) if z3.is_int(v.v) else (lambda k: z3.BitVecVal(k, v.w))
+            alts = [(('arm', k, tgt), v.v == mk(k)) for k, tgt in arms]
             if other is not None:
-                alts.append((('other', other), z3.And([v.v != z3.BitVecVal(k, v.w) for k, _ in arms])))
+                alts.append((('other', other), z3.And([v.v != mk(k) for k, _ in arms])))
             lab = self.decide(alts, exhaustive=other is not None)
             return lab[-1]
         if t == 'call':
